@@ -6,6 +6,7 @@ import (
 	"github.com/gcash/bchd/chaincfg/chainhash"
 	"github.com/gcash/bchutil"
 	"github.com/gcash/bchutil/coinset"
+	"sync"
 )
 
 func init() {
@@ -50,8 +51,35 @@ func coinList(a Event, k string) []coinset.Coin {
 	return out
 }
 
+// The offered list of successive calls lives in a re-used backing array (per length; each running call owns its
+// array exclusively): a selector that remembers anything about "the slice at this address" sees other contents there.
+var (
+	coinBufMu   sync.Mutex
+	coinBufFree = map[int][][]coinset.Coin{}
+)
+
+func borrowCoinBuf(n int) []coinset.Coin {
+	coinBufMu.Lock()
+	defer coinBufMu.Unlock()
+	if l := coinBufFree[n]; len(l) > 0 {
+		b := l[len(l)-1]
+		coinBufFree[n] = l[:len(l)-1]
+		return b
+	}
+	return make([]coinset.Coin, n)
+}
+
+func returnCoinBuf(b []coinset.Coin) {
+	coinBufMu.Lock()
+	coinBufFree[len(b)] = append(coinBufFree[len(b)], b)
+	coinBufMu.Unlock()
+}
+
 func opSelect(_ *HState, a Event) Event {
-	coins := coinList(a, "coins")
+	fresh := coinList(a, "coins")
+	coins := borrowCoinBuf(len(fresh))
+	copy(coins, fresh)
+	defer returnCoinBuf(coins)
 	var sel coinset.CoinSelector
 	mi, mc, ma := gInt(a, "maxinputs"), bchutil.Amount(gInt64(a, "minchange")), gInt64(a, "minavg")
 	switch gName(a, "selector") {
